@@ -32,7 +32,7 @@ def unrandomize_255(v, pos):
 
 def decode(cw):
     out = bytearray()
-    res = dict(data=None, modes=[], eci=[], macro=None, fnc1=False, pad_start=None, error=None, segments=[])
+    res = dict(data=None, modes=[], eci=[], macro=None, fnc1=False, pad_start=None, error=None, segments=[], implicit=[])
     n = len(cw)
     i = 0
     trailer = b''
@@ -94,11 +94,11 @@ def decode(cw):
                 start_out = len(out)
                 i += 1
                 if mode in ('C40', 'Text', 'X12'):
-                    i = _c40_like(cw, i, out, mode)
+                    i = _c40_like(cw, i, out, mode, res['implicit'])
                 elif mode == 'Edifact':
-                    i = _edifact(cw, i, out)
+                    i = _edifact(cw, i, out, res['implicit'])
                 else:
-                    i = _base256(cw, i, out)
+                    i = _base256(cw, i, out, res['implicit'])
                 res['segments'].append((mode, len(out) - start_out))
             else:
                 raise Bad('codeword %d is not allowed in ASCII mode' % c)
@@ -111,7 +111,7 @@ def decode(cw):
     return res
 
 
-def _c40_like(cw, i, out, mode):
+def _c40_like(cw, i, out, mode, implicit=None):
     n = len(cw)
     shift, upper = 0, False
     base = C40_BASE if mode == 'C40' else TEXT_BASE
@@ -160,13 +160,17 @@ def _c40_like(cw, i, out, mode):
     # one codeword left in the symbol: it is an ASCII codeword (or an unlatch to be ignored)
     if n - i == 1 and cw[i] == 254:
         return i + 1
+    if implicit is not None:
+        implicit.append(mode)          # the run ended without an unlatch: end-of-symbol form
     return i
 
 
-def _edifact(cw, i, out):
+def _edifact(cw, i, out, implicit=None):
     n = len(cw)
     while i < n:
         if n - i <= 2:
+            if implicit is not None:
+                implicit.append('Edifact')
             return i         # the last one or two codewords of the symbol are ASCII
         a, b, c = cw[i], cw[i + 1], cw[i + 2]
         bits = (a << 16) | (b << 8) | c
@@ -177,10 +181,12 @@ def _edifact(cw, i, out):
                 return i + used[k]
             out.append(v if v & 32 else v | 64)
         i += 3
+    if implicit is not None:
+        implicit.append('Edifact')
     return i
 
 
-def _base256(cw, i, out):
+def _base256(cw, i, out, implicit=None):
     n = len(cw)
     if i >= n:
         raise Bad('Base256 length missing')
@@ -188,6 +194,8 @@ def _base256(cw, i, out):
     i += 1
     if d1 == 0:
         length = n - i
+        if implicit is not None:
+            implicit.append('Base256')
     elif d1 < 250:
         length = d1
     else:
